@@ -19,6 +19,12 @@ CLAIMED = {
  "C09": ("6/C09", "deterministic simulation: 2-4 tasks released together perform overlapping first uses while others record and a pass runs; identity + allocate-once + conservation oracle",
          "Seeded search over interleavings of concurrent first-use registrations of the same counters, gauges, timers, histograms and child scopes (1-64 registry shards) with recording on registered metrics and report passes; all callers must receive the same object, a cached reporter sees at most one Allocate per (name, tags, kind) and one bucket allocation per bucket, everything recorded through any handle is delivered, no panic/deadlock. Exploration.",
          "As C01. Data races between plain memory accesses are covered by the -race slice of the check only (happens-before based, schedule dependent)."),
+ "C10": ("6/C10", "deterministic simulation: Record/Start/Stop/Exec histories interleaved with report passes on a fake clock; synchronous-forwarding and elapsed-time oracle",
+         "Seeded search over record histories on timers in several scopes (unique and extreme durations) interleaved with report passes, on plain, cached and reporter-less test scopes; every Record must produce exactly one delivery with its value, name and tags, made by the recording task before Record returns, passes deliver no timer values, stopwatches record the fake-clock time between Start and Stop, an instrumented call runs once, returns its error, records one latency and bumps exactly one counter. Exploration.",
+         "As C01; stopwatch bounds use the simulated clock read before/after Start and Stop."),
+ "C11": ("6/C11", "deterministic simulation: test-scope histories with quiescent and concurrent snapshots compared with a reference ledger",
+         "Seeded search over record histories on a test scope and derived scopes with snapshots taken concurrently and at quiescence; a quiescent snapshot must equal the reference ledger exactly (keys, names, tags, counter sums, last gauge bits, timer values, every bucket incl. empty ones and duplicated bounds), a concurrent one must lie between completed and invoked increments, a snapshot must not change after later recording, mutating it must not affect the scope, closed test subscopes stay visible. Exploration; the snapshot contents are input-dominated, the simulator adds the concurrent snapshots and seeded map order.",
+         "As C01. Names and tags avoid the key format's delimiter characters (see known finding D3b)."),
 }
 
 NOT_APPLICABLE = {
